@@ -28,6 +28,7 @@ import (
 	"strings"
 	"testing"
 	"time"
+	"unsafe"
 
 	"golang.org/x/crypto/md4"
 	"golang.org/x/crypto/pbkdf2"
@@ -36,14 +37,14 @@ import (
 // ---- replay state ---------------------------------------------------------------------------
 
 type replayFile struct {
-	Harness string            `json:"harness"`
-	Params  map[string]int64  `json:"params"`
-	Inputs  []string          `json:"inputs"` // hex, in creation order
-	Stubs   []json.RawMessage `json:"stubs"`
-	Clock   []string          `json:"clock"` // harness clock readings, ns since 0001-01-01 UTC
-	RandInts []string         `json:"randints"` // results of crypto/rand.Int, in call order
-	Endpoints []endpointRec   `json:"endpoints"`
-	Schedule []int            `json:"schedule"` // thread ids in the order they were given the baton at lock operations
+	Harness   string            `json:"harness"`
+	Params    map[string]int64  `json:"params"`
+	Inputs    []string          `json:"inputs"` // hex, in creation order
+	Stubs     []json.RawMessage `json:"stubs"`
+	Clock     []string          `json:"clock"`    // harness clock readings, ns since 0001-01-01 UTC
+	RandInts  []string          `json:"randints"` // results of crypto/rand.Int, in call order
+	Endpoints []endpointRec     `json:"endpoints"`
+	Schedule  []int             `json:"schedule"` // thread ids in the order they were given the baton at lock operations
 }
 
 var (
@@ -166,6 +167,7 @@ func Assume(b bool) {
 		panic(Skip{})
 	}
 }
+
 // Assert records a failed assertion and continues (like the symbolic execution, which reports the
 // obligation and continues on the side where it holds), so that one replay run confirms every
 // assertion that fails for the recorded inputs.
@@ -176,6 +178,7 @@ func Assert(label string, b bool) {
 }
 
 var failed []string
+
 func Reach(label string) {}
 
 // ---- specification-side primitives (uninterpreted under gosym, real natively) -------------------
@@ -513,7 +516,10 @@ func Stub(name string, outs ...interface{}) error {
 	}
 	for i, o := range outs {
 		if i < len(r.Outs) {
-			fill(reflect.ValueOf(o).Elem(), r.Outs[i])
+			ov := reflect.ValueOf(o).Elem()
+			keep := keepPtrLike(ov)
+			fill(ov, r.Outs[i])
+			keep()
 		}
 	}
 	if r.Kind == "err" {
@@ -523,6 +529,32 @@ func Stub(name string, outs ...interface{}) error {
 }
 
 var timeType = reflect.TypeOf(time.Time{})
+
+// keepPtrLike: a stubbed decoder leaves the unexported pointer-like fields of its output alone
+// (settings, contexts, ...), as the real decoder does; the returned func restores them after fill.
+func keepPtrLike(v reflect.Value) func() {
+	if v.Kind() != reflect.Struct || v.Type() == timeType || !v.CanAddr() {
+		return func() {}
+	}
+	var restore []func()
+	for i := 0; i < v.NumField(); i++ {
+		f := v.Field(i)
+		switch f.Kind() {
+		case reflect.Ptr, reflect.Interface, reflect.Map, reflect.Func, reflect.Chan:
+			if !v.Type().Field(i).IsExported() {
+				w := reflect.NewAt(f.Type(), unsafe.Pointer(f.UnsafeAddr())).Elem()
+				old := reflect.New(f.Type()).Elem()
+				old.Set(w)
+				restore = append(restore, func() { w.Set(old) })
+			}
+		}
+	}
+	return func() {
+		for _, f := range restore {
+			f()
+		}
+	}
+}
 
 func fill(v reflect.Value, raw json.RawMessage) {
 	if len(raw) == 0 || string(raw) == "null" {
@@ -585,6 +617,10 @@ func fill(v reflect.Value, raw json.RawMessage) {
 		v.Set(reflect.Zero(v.Type()))
 		for name, fr := range m.F {
 			f := v.FieldByName(name)
+			if f.IsValid() && !f.CanSet() && f.CanAddr() {
+				// unexported field: the stubbed function is in the type's own package and sets it directly
+				f = reflect.NewAt(f.Type(), unsafe.Pointer(f.UnsafeAddr())).Elem()
+			}
 			if f.IsValid() && f.CanSet() {
 				fill(f, fr)
 			}
